@@ -81,7 +81,7 @@ def py_env(build_dir, hashseed=None):
     return env
 
 
-def run_jobs(jobs, timeout=1500):
+def run_jobs(jobs, timeout=600):
     """jobs: list of (argv, env); run in parallel; returns list of CompletedProcess"""
     def one(job):
         argv, env = job
